@@ -110,7 +110,23 @@ LINES = [('Running example         : ', None), ('Message                 : ', 'm
          ('Probabilities min rew   : ', 'prob_min_rew'), ('Rewards                 : ', 'rewards'), ('Rewards min reach       : ', 'rew_min_reach'), ('Total time              : ', 'total_time')]
 
 
+def synthetic_results():
+    """result dictionaries save_results_to_file must report verbatim although run_games happens not to produce them today:
+    empty lists, empty strategies inside a table, zeros, None, long vectors"""
+    base = dict(n_states=0, n_transitions=0, n_iterations_reach=0, n_iterations_rew=0, reachability_strategies=None, final_strategies=None,
+                total_time=0.0, msg='Game not solved', rewards=None, rew_min_reach=0, probabilities=None, prob_min_rew=0)
+    yield {'empty': dict(base, reachability_strategies=[], final_strategies=[], rewards=[], probabilities=[], rew_min_reach=[], prob_min_rew=[], msg='Game solved')}
+    yield {'half': dict(base, reachability_strategies=[], final_strategies=None), 'half_no_prune': dict(base, reachability_strategies=None, final_strategies=[])}
+    yield {'tables': dict(base, n_states=3, reachability_strategies=[[], None, ['a']], final_strategies=[[], None, []], rewards=[0, 0.0, 1.5], probabilities=[0, 1, 0.5],
+                          rew_min_reach=[0.0] * 3, prob_min_rew=[0] * 3, msg='Game solved', n_iterations_reach=1, n_iterations_rew=1, total_time=1e-09)}
+    yield {'long': dict(base, n_states=400, rewards=[k / 7 for k in range(400)], probabilities=[1.0] * 400, rew_min_reach=[0.1] * 400, prob_min_rew=[1] * 400,
+                        reachability_strategies=[None] * 400, final_strategies=[None] * 400, msg='Game solved')}
+    yield {'zeros': dict(base, rewards=0, probabilities=0, total_time=0, msg='')}
+
+
 def gen_reports(rng, tier):
+    for r in synthetic_results():
+        yield dict(results=r, file='inputs/synthetic_1.py')
     for b in gen_batches(rng, tier):
         yield dict(batch=b, file=rng.choice(['inputs/example_games.py', 'inputs/board_3_copy.py', 'x.py', 'inputs/robot_47_w5_l5_r6_rb10.py', 'some/dir/a_1.py', 'inputs/happy.py']))
 
@@ -119,14 +135,17 @@ def check_report(inp, mods, rng=None):
     mods = lib.load_repo()
     cr = mods['conditionalrewards']
     F = []
-    names, games = inp['batch']['names'], inp['batch']['games']
+    if 'results' in inp:
+        names, games = [], []
+    else:
+        names, games = inp['batch']['names'], inp['batch']['games']
     d = {n: copy.deepcopy(g) for n, g in zip(names, games)}
     # the input file is read into the games it textually denotes (and a second read gives the same)
     with MemFS() as fs:
         fs.files[inp['file']] = repr(d)
         try:
             r1 = cr.read_dict_from_file(inp['file'])
-            res = quiet(lambda: SC.timed(lambda: cr.run_games(r1), 30))
+            res = copy.deepcopy(inp['results']) if 'results' in inp else quiet(lambda: SC.timed(lambda: cr.run_games(r1), 30))
             r2 = cr.read_dict_from_file(inp['file'])
             cr.save_results_to_file(res, inp['file'])
         except BaseException as e:   # noqa
